@@ -339,4 +339,4 @@ def ob_mixture():
 
 def obligations(tier, seed):
     names = ["Normal", "Normal()", "Normal(bcast)", "LogNormal", "Uniform", "Gumbel", "Cauchy", "StudentT", "Laplace", "Exponential", "Logistic", "MultivariateNormal"]
-    return [dict(name=n, func="c05:ob_family", kwargs=dict(name=n), cost=3) for n in names] + [dict(name="mixture", func="c05:ob_mixture", kwargs={}, cost=5)]
+    return [dict(name=n, func="c05:ob_family", kwargs=dict(name=n), cost=3, replay=dict(func="c05:replay_family", kwargs=dict(name=n))) for n in names] + [dict(name="mixture", func="c05:ob_mixture", kwargs={}, cost=5)]
